@@ -41,20 +41,20 @@ def write_fixture(root):
 
 # (statement, runtime usage expression or None, allowed placements)
 IMPORT_POOL = [
-    ("import shapes", "shapes.area(shapes.Circle(3))", "tmfy"),
+    ("import shapes", "shapes.area(shapes.Circle(3))", "tmfyYFI"),
     ("import shapes as sh", "sh.Square(2).side", "tmf"),
-    ("from shapes import Circle", "Circle(1).r", "tmfcy"),
-    ("from shapes import Circle as C", "C(2).r", "tmf"),
+    ("from shapes import Circle", "Circle(1).r", "tmfcyYFI"),
+    ("from shapes import Circle as C", "C(2).r", "tmfccF"),
     ("from shapes import Square, Circle", "Square(1).side + Circle(1).r", "tmf"),
-    ("from shapes import Circle as Ci, Square", "Ci(1).r + Square(2).side", "tm"),
-    ("from shapes import Square", "Square(5).side", "tmfc"),
+    ("from shapes import Circle as Ci, Square", "Ci(1).r + Square(2).side", "tmc"),
+    ("from shapes import Square", "Square(5).side", "tmfcY"),
     ("from shapes import *", "area(Square(2))", "tm"),
     ("import geo.pts", "geo.pts.Point(1, 2).x", "tmf"),
     ("import geo.pts as gp", "gp.Point(3, 4).y", "tm"),
     ("import geo", None, "tm"),
     ("from geo import pts", "pts.Point(5, 6).x", "tmf"),
-    ("from geo.pts import Point", "Point(7, 8).y", "tmfcy"),
-    ("from geo.pts import Point as P", "P(9, 1).x", "tmf"),
+    ("from geo.pts import Point", "Point(7, 8).y", "tmfcyYFI"),
+    ("from geo.pts import Point as P", "P(9, 1).x", "tmfccY"),
     ("import os", "os.sep", "tmf"),
     ("import os.path", "os.path.basename('a/b')", "tm"),
     ("import os, shapes", "os.sep + str(shapes.area(shapes.Square(2)))", "tm"),
@@ -64,13 +64,13 @@ IMPORT_POOL = [
     ("import typing", "typing.TYPE_CHECKING", "tm"),
     ("from typing import *", "Optional is not None", "tm"),
     ("from other import Circle", "Circle(4).r", "tmfc"),
-    ("from other import Thing", "Thing(1).v", "tmfc"),
-    ("from other import Thing as Circle", "Circle(1).v", "tf"),
+    ("from other import Thing", "Thing(1).v", "tmfcYF"),
+    ("from other import Thing as Circle", "Circle(1).v", "tfc"),
     ("import other", "other.Thing(2).v", "tmf"),
     ("from mypy_extensions import TypedDict", "TypedDict is not None", "tm"),
     ("import typings", "typings.Payload(1).v", "tmf"),
-    ("from typings import Payload", "Payload(2).v", "tmfc"),
-    ("from typing_helpers import Helper as H", "H(3).v", "tm"),
+    ("from typings import Payload", "Payload(2).v", "tmfcYI"),
+    ("from typing_helpers import Helper as H", "H(3).v", "tmc"),
     ("import typing_helpers", "typing_helpers.Helper(4).v", "tm"),
     ("from mypy_extensions_compat import Compat", "Compat(5).v", "tmf"),
 ]
@@ -157,6 +157,19 @@ def gen_source(rnd, fx, directed=None, funcs=None, minimal=False):
         elif place == "y":
             nm = st.split()[-1]
             mid.append(f"try:\n    {st}\nexcept ImportError:\n    {nm} = None")
+            if use:
+                usages.append(use)
+        # one-line compound statements (libcst: SimpleStatementSuite instead of IndentedBlock)
+        elif place == "Y":
+            nm = st.split()[-1]
+            mid.append(f"try: {st}\nexcept ImportError: {nm} = None")
+            if use:
+                usages.append(use)
+        elif place == "F":
+            helpers.append(f"def _h{n}(): {st}; return {use}\n" if use else f"def _h{n}(): {st}\n")
+            usages.append(f"_h{n}()")
+        elif place == "I":
+            mid.append(f"if LIMIT: {st}")
             if use:
                 usages.append(use)
     if tc_block:
